@@ -72,7 +72,10 @@ pub fn extremes(v: &Value, path: &str) -> Vec<(String, Value)> {
             let t64 = Felt::TWO.pow(64u64);
             for (l, f) in [("0", Felt::ZERO), ("1", Felt::ONE), ("2", Felt::TWO), ("2^16", Felt::TWO.pow(16u64)), ("2^40", Felt::TWO.pow(40u64)), ("2^63", Felt::TWO.pow(63u64)),
                            ("2^64-3", t64 - Felt::THREE), ("2^64-2", t64 - Felt::TWO), ("2^64-1", t64 - Felt::ONE), ("2^64", t64), ("2^64+1", t64 + Felt::ONE), ("2^64+10", t64 + Felt::from(10)),
-                           ("3*2^64+1", t64 * Felt::THREE + Felt::ONE), ("2^128", Felt::TWO.pow(128u64)), ("2^128+1", Felt::TWO.pow(128u64) + Felt::ONE), ("p-1", p_minus_1), ("p-2", p_minus_1 - Felt::ONE)] {
+                           ("3*2^64+1", t64 * Felt::THREE + Felt::ONE), ("2^128", Felt::TWO.pow(128u64)), ("2^128+1", Felt::TWO.pow(128u64) + Felt::ONE), ("p-1", p_minus_1), ("p-2", p_minus_1 - Felt::ONE),
+                           // field quotients: small when multiplied by 2 / 3 / 4 / 16, huge as integers
+                           ("21/2", Felt::from(21) * Felt::TWO.inverse().unwrap()), ("1/3", Felt::THREE.inverse().unwrap()), ("41/4", Felt::from(41) * Felt::from(4).inverse().unwrap()),
+                           ("33/16", Felt::from(33) * Felt::from(16).inverse().unwrap())] {
                 out.push((l.to_string(), json!(format!("{:#x}", f))));
             }
         }
